@@ -15,6 +15,8 @@
 (* starts over: extrapolations happen in the 7th, 14th, 21st epoch of a     *)
 (* working set; the inner optimality check runs every 10 epochs. So 6,7,8 / *)
 (* 13,14,15 / 20,21,22 epochs end just before / on / after an extrapolation.*)
+(* MultiTaskBCD carries its own inline acceleration with period K + 1 = 6   *)
+(* (extrapolation in the 6th, 12th, 18th epoch): 5,6,7 / 12 / 18 cover it.  *)
 (***************************************************************************)
 EXTENDS Integers, Sequences, FiniteSets, TLC, Json
 
@@ -66,7 +68,7 @@ HasEpochs(s) == s \in {"AndersonCD", "GroupBCD", "MultiTaskBCD", "PDCD_WS"}
 
 \* ---- knob domains
 MaxIters == {0, 1, 2, 3, 8, 50}
-MaxEpochs == {1, 2, 6, 7, 8, 11, 13, 14, 15, 20, 21, 22, 25, 200}
+MaxEpochs == {1, 2, 5, 6, 7, 8, 11, 12, 13, 14, 15, 18, 20, 21, 22, 25, 200}
 P0s == {"1", "2", "10", "p", "10p"}
 Tols == {"1e-3", "1e-4", "1e-5"}
 Warms == {"none", "zero", "random", "bigsupp", "intercept_only"}
